@@ -465,7 +465,7 @@ class Sim(object):
                 continue
             self.current = t
             t.baton.release()
-            if not root.baton.acquire(True, 20):
+            if not root.baton.acquire(True, 60):
                 self.leaked += 1
         # tasks spawned during the kill phase are DONE already (spawn() refuses)
         self.current = root
